@@ -266,11 +266,14 @@ def evaluate(case, ctx, need_info=False):
     ev.exact = [a.exact(n) for a in ans]
     ev.exact_f = [complex(v) if isinstance(v, mp.mpc) else float(v) for v in ev.exact]
     # scales
-    ev.S, ev.S1, ev.hmin, ev.hmax = [], [], [], []
+    ev.S, ev.S1, ev.hmin, ev.hmax, ev.U = [], [], [], [], []
+    ev.amp = float(np.sum(np.abs(d.fd_rule.rule(ratio)))) if n > 0 else 1.0
+    ev.amp = max(ev.amp, 1.0)
     for j, a in enumerate(ans):
         if n == 0:
             ev.S.append(None)
             ev.S1.append(None)
+            ev.U.append(None)
             ev.hmin.append(None)
             ev.hmax.append(None)
             continue
@@ -280,9 +283,37 @@ def evaluate(case, ctx, need_info=False):
         r1 = w * hmax if difference_forming(method, n, d.order) else a.rho_cert / 2.0
         ev.S.append(a.scale(n, r0, r1))
         ev.S1.append(a.scale(n + 1, r0, r1))
+        # a rule window is scaled by its largest step: only the k_est largest steps head a window
+        heads = sorted(hs, reverse=True)[:max(ev.k_est, 1)]
+        ev.U.append(envelope_unit(a, n, d.method_order, heads, w, difference_forming(method, n, d.order),
+                                  ev.amp))
         ev.hmin.append(hmin)
         ev.hmax.append(hmax)
     return ev
+
+
+def envelope_unit(a, n, p, hs, w, diff_forming, amp):
+    """U = amp * min_j [ T_p(w h_j) + R(h_j) ]  for the generated steps h_j   (DESIGN 10.1)
+
+    T_p(r) = n! (sum_{k >= n+p} |c_k| r^(k-n) + Cauchy tail)          truncation of an order-p rule
+    R(h)   = eps n! max_g M_g(w h) / h^n                              rounding of a difference of values
+           = eps n! max_g sum_{k >= n} |c_k(g)| (w h)^(k-n)           for the cancellation-free rules
+    amp    = sum |rule weights| (conditioning of the rule).  Returns (U, T_best, R_best) or None."""
+    hs = np.asarray(sorted(set(float(h) for h in hs if h > 0)))
+    if hs.size == 0:
+        return None
+    radii = w * hs
+    with np.errstate(all='ignore'):
+        lt = a.log_bound(n, radii, node=-1, kmin=n + p)[0]
+        if diff_forming:
+            lr = np.max(a.log_bound(0, radii), axis=0) + math.lgamma(n + 1) - n * np.log(hs) + math.log(EPS)
+        else:
+            lr = np.max(a.log_bound(n, radii, kmin=n), axis=0) + math.log(EPS)
+        tot = np.logaddexp(lt, lr)
+    j = int(np.argmin(tot))
+    if not np.isfinite(tot[j]) or tot[j] > 700:
+        return None
+    return amp * math.exp(tot[j]), amp * math.exp(min(lt[j], 700)), amp * math.exp(min(lr[j], 700))
 
 
 def summary(case, ev=None, j=0):
